@@ -189,7 +189,7 @@ Section Laid1.
 
   Lemma local_piece1 flv : forall es (pl : list (list N * loc)) cA c0 B lastc il st,
     Forall Pe1 es -> forallb frag_exp es = true -> forallb tb_shp_exp es = true ->
-    chain W c0 (flat_map m_exp es) B -> (length es <= length pl)%nat ->
+    chain W c0 (flat_map m_exp es) B ->
     (forall p, In p pl -> idok W (snd p) /\ hi W (snd p) <= c0) ->
     InReg W lastc cA c0 -> cA <= c0 ->
     match il with Some i => colok W i /\ hi W i <= B | None => True end ->
@@ -197,9 +197,9 @@ Section Laid1.
     cl_local_loop (map (fun e => (e, tr_exp flv e, cl1_exp nm flv e)) es) pl st = true /\
     EvoS W cA B (vss st) (vss (local_loop (map (fun e => (e, tr_exp flv e)) es) pl lastc il st)).
   Proof.
-    intros es pl cA c0 B lastc il st He Hf Hs Hx Hlen Hp Hlast HcA Hil Hne Hg.
+    intros es pl cA c0 B lastc il st He Hf Hs Hx Hp Hlast HcA Hil Hne Hg.
     exact (local_piece_gen W (fun e => tr_exp flv e) (fun e => cl1_exp nm flv e) es pl cA c0 B lastc il st
-                           (exps_piece1 flv es c0 B He Hf Hs Hx) Hx Hlen Hp Hlast HcA Hil Hne Hg).
+                           (exps_piece1 flv es c0 B He Hf Hs Hx) Hx Hp Hlast HcA Hil Hne Hg).
   Qed.
 
   Lemma stats_piece1 flv slv : forall ss a b,
